@@ -321,10 +321,20 @@ def dispatched (env : Env) (σ : State) (remote : Nid) : Bool :=
 
 /-! ## connection events (to reach every session state) -/
 
-/-- `Service::connected(remote, addr, Link::Inbound)` -/
+/-- `Service::fail_fetches`: drop every ongoing fetch from `remote` from `Service::fetching`. -/
+def failFetches (σ : State) (remote : Nid) : Rid → Option (Nid × List RefAt) := fun rid =>
+  match σ.fetching rid with
+  | some (f, r) => if f = remote then none else some (f, r)
+  | none => none
+
+/-- `Service::connected(remote, addr, Link::Inbound)`: a peer that already has a session gets it reset;
+if that session was connected, its ongoing fetches are failed (commit ba93de2). -/
 def connectedInbound (σ : State) (remote : Nid) (host : Host) (routable persistent : Bool) : State :=
   match σ.sessions remote with
-  | some s => { σ with sessions := upd σ.sessions remote (some s.toConnected) }
+  | some s =>
+    if s.isConnected then
+      { σ with fetching := failFetches σ remote, sessions := upd σ.sessions remote (some s.toConnected) }
+    else { σ with sessions := upd σ.sessions remote (some s.toConnected) }
   | none =>
     let s : Session := { id := remote, host := host, routable := routable, persistent := persistent,
                          state := SessState.connected [] none, queue := [], subscribed := false }
@@ -335,14 +345,11 @@ def disconnected (σ : State) (remote : Nid) : State :=
   match σ.sessions remote with
   | none => σ
   | some s =>
-    let fetching : Rid → Option (Nid × List RefAt) := fun rid =>
-      match σ.fetching rid with
-      | some (f, r) => if f = remote then none else some (f, r)
-      | none => none
     if s.persistent then
-      { σ with fetching := fetching, sessions := upd σ.sessions remote (some { s with state := .disconnected }) }
+      { σ with fetching := failFetches σ remote,
+               sessions := upd σ.sessions remote (some { s with state := .disconnected }) }
     else
-      { σ with fetching := fetching, sessions := upd σ.sessions remote none }
+      { σ with fetching := failFetches σ remote, sessions := upd σ.sessions remote none }
 
 /-! ## runs -/
 
